@@ -1,4 +1,17 @@
-// spike
+// C13: hot reload applies every changed parameter to running components.
+//
+// Engine X on a REAL core.Core with every component enabled (metrics, pprof, playback, API, RTSP+RTSPS,
+// RTMP+RTMPS, HLS, WebRTC, SRT, MoQ, record cleaner) on a private block of loopback ports, in worker
+// subprocesses. A case is a pair (old, new) of valid configurations: a Core is started with old, brought to
+// new by a reload -- through the API entry points of Core (Clone + Patch* + Validate + reloadConf in Core.run)
+// or through the "configuration file changed" branch (conf.Load + reloadConf) -- and every component is
+// observed by reflection (shim zz_verif_c13.go: identity, plain-data fields, which component every
+// pointer/interface field refers to). The oracle is differential, there is no hand-written expectation:
+//   (1) after the reload every component has the fields and references of a FRESH Core started with new
+//       (a parameter that was not applied shows as a field that still has the old value);
+//   (2) no reference points to a component instance that was closed;
+//   (3) a component whose observation is the same in a fresh old and a fresh new Core, and none of whose
+//       referenced components was recreated, is the SAME instance after the reload.
 package main
 
 import (
@@ -6,57 +19,663 @@ import (
 	"flag"
 	"fmt"
 	"os"
+	"sort"
+	"strings"
 	"time"
 
-	"github.com/bluenviron/mediamtx/internal/core"
-	"github.com/bluenviron/mediamtx/internal/test"
+	"github.com/bluenviron/mediamtx/internal/conf"
 	"github.com/bluenviron/mediamtx/internal/zzverif/c12lib"
+	"github.com/bluenviron/mediamtx/internal/zzverif/vcommon"
 )
 
-func main() {
-	flag.String("tier","","")
-	flag.Parse()
-	dir, _ := os.MkdirTemp("", "c13spike")
-	defer os.RemoveAll(dir)
-	os.Chdir(dir)
-	os.WriteFile("server.crt", test.TLSCertPub, 0o644)
-	os.WriteFile("server.key", test.TLSCertKey, 0o644)
-	b, err := c12lib.PickBlock(25000, 0, 64, 48)
+var (
+	flagWorker = flag.Int("worker", -1, "internal: run as worker i")
+	flagWTmp   = flag.String("wtmp", "", "internal: worker temp dir")
+	flagProcs  = flag.Int("procs", 0, "worker processes (0 = one per core, max 16)")
+	flagBudget = flag.Duration("budget", 0, "internal deadline (0 = tier default)")
+	flagOnly   = flag.String("only", "", "debug: only cases whose label contains this text")
+)
+
+type caseInfo struct {
+	c      *Case
+	label  string   // human-readable: base, deltas, route
+	base   string   // name of the base configuration
+	names  []string // names of the deltas
+	params []string // names of the parameters that differ between old and new
+	vals   map[string]any
+	kind   string // single | reverse | pair | triple | chain
+	noIdentity bool
+}
+
+// defaults of the global parameters and of the path defaults, as JSON values (for reverse edits through the API)
+func confDefaults() (map[string]any, map[string]any) {
+	dir, err := os.MkdirTemp("", "verif-c13d-")
 	if err != nil {
-		panic(err)
+		vcommon.Harness("mkdtemp: %v", err)
 	}
-	a := func(k int) string { return fmt.Sprintf("127.0.0.1:%d", b+k) }
-	cfg := map[string]any{
-		"api": true, "apiAddress": a(0),
-		"metrics": true, "metricsAddress": a(1),
-		"pprof": true, "pprofAddress": a(2),
-		"playback": true, "playbackAddress": a(3),
-		"rtspEncryption": "optional", "rtspAddress": a(4), "rtspsAddress": a(5),
-		"rtpAddress": a(6), "rtcpAddress": a(7), "srtpAddress": a(8), "srtcpAddress": a(9),
-		"multicastRTPPort": b + 10, "multicastRTCPPort": b + 11, "multicastSRTPPort": b + 12, "multicastSRTCPPort": b + 13,
-		"rtmpEncryption": "optional", "rtmpAddress": a(14), "rtmpsAddress": a(15),
-		"hlsAddress": a(16), "webrtcAddress": a(17), "webrtcLocalUDPAddress": a(18), "webrtcLocalTCPAddress": a(19),
-		"srtAddress": a(20), "moqHTTP2Address": a(21), "moqHTTP3Address": a(22), "moqQUICAddress": a(23),
-		"moqServerKey": "server.key", "moqServerCert": "server.crt",
-		"paths": map[string]any{"p1": map[string]any{}},
+	defer os.RemoveAll(dir)
+	fn := dir + "/empty.yml"
+	_ = os.WriteFile(fn, []byte("{}\n"), 0o644)
+	c, _, err := conf.Load(fn, nil, nil)
+	if err != nil {
+		vcommon.Harness("conf.Load of an empty file: %v", err)
 	}
-	path, _ := c12lib.WriteConf(dir, "c.yml", cfg)
-	for i := 0; i < 5; i++ {
-		t0 := time.Now()
-		p, ok := c12lib.StartCore(path)
-		t1 := time.Now()
+	var gl, pd map[string]any
+	b, _ := json.Marshal(c.Global())
+	_ = json.Unmarshal(b, &gl)
+	b, _ = json.Marshal(c.PathDefaults)
+	_ = json.Unmarshal(b, &pd)
+	return gl, pd
+}
+
+// reverse returns the delta that undoes d on top of base, when it can be expressed as API edits.
+func reverse(base map[string]any, d Delta, defG, defP map[string]any) (Delta, bool) {
+	r := Delta{Name: "undo(" + d.Name + ")", Group: d.Group}
+	if len(d.Global) > 0 {
+		r.Global = map[string]any{}
+		for k := range d.Global {
+			if v, ok := base[k]; ok {
+				r.Global[k] = v
+			} else if v, ok := defG[k]; ok {
+				r.Global[k] = v
+			} else {
+				return r, false // an optional (deprecated) parameter cannot be unset through the API
+			}
+		}
+	}
+	if len(d.Defaults) > 0 {
+		r.Defaults = map[string]any{}
+		bd, _ := base["pathDefaults"].(map[string]any)
+		for k := range d.Defaults {
+			if v, ok := bd[k]; ok {
+				r.Defaults[k] = v
+			} else if v, ok := defP[k]; ok {
+				r.Defaults[k] = v
+			} else {
+				return r, false
+			}
+		}
+	}
+	if len(d.Paths) > 0 {
+		r.Paths = map[string]any{}
+		bp, _ := base["paths"].(map[string]any)
+		for n := range d.Paths {
+			if v, ok := bp[n]; ok {
+				r.Paths[n] = v
+			} else {
+				r.Paths[n] = nil
+			}
+		}
+	}
+	return r, true
+}
+
+func pathNamesOf(cfg map[string]any) []string {
+	ps, _ := cfg["paths"].(map[string]any)
+	var out []string
+	for n := range ps {
+		out = append(out, n)
+	}
+	sort.Strings(out)
+	return out
+}
+
+func paramsOf(ds ...Delta) ([]string, map[string]any) {
+	var out []string
+	vals := map[string]any{}
+	for _, d := range ds {
+		for k, v := range d.Global {
+			out = append(out, k)
+			vals[k] = v
+		}
+		for k, v := range d.Defaults {
+			out = append(out, "pathDefaults."+k)
+			vals["pathDefaults."+k] = v
+		}
+		for k := range d.Paths {
+			out = append(out, "paths."+k)
+		}
+	}
+	sort.Strings(out)
+	return out, vals
+}
+
+func main() {
+	flag.Parse()
+	if *flagWorker >= 0 {
+		workerMain(*flagWorker, *flagWTmp)
+		return
+	}
+	r := vcommon.Start("C13", "model_checking")
+	budget := 50 * time.Second
+	if r.Thorough() {
+		budget = 13 * time.Minute
+	}
+	if *flagBudget > 0 {
+		budget = *flagBudget
+	}
+	deadline := time.Now().Add(budget)
+
+	ds := deltas()
+	defG, defP := confDefaults()
+
+	// every global parameter of conf.Conf must have an alternative value in the table
+	covered := map[string]bool{}
+	for _, d := range ds {
+		for k := range d.Global {
+			covered[k] = true
+		}
+	}
+	var uncovered []string
+	for _, n := range confParamNames() {
+		if !covered[n] {
+			uncovered = append(uncovered, n)
+		}
+	}
+	if len(uncovered) > 0 {
+		vcommon.Harness("global parameters of conf.Conf without an alternative value in harness/c13/params.go: %v", uncovered)
+	}
+
+	b0 := baseConf()
+	b1 := apply(b0, Delta{Global: map[string]any{"rtspUDPReadBufferSize": 65536, "authJWTInHTTPQuery": true}})
+	bases := map[string]map[string]any{"all-enabled": b0, "all-enabled+optional-pointer-parameters-set": b1}
+
+	var cases []*caseInfo
+	add := func(baseName string, kind, route string, old, nw map[string]any, steps []Delta, via []Delta, noIdentity bool) {
+		ci := &caseInfo{base: baseName, kind: kind, noIdentity: noIdentity}
+		for _, d := range via {
+			ci.names = append(ci.names, d.Name)
+		}
+		ci.params, ci.vals = paramsOf(via...)
+		ci.label = fmt.Sprintf("%s %s [%s] via %s on base %s", kind, strings.Join(ci.names, " , "), stepNames(steps), route, baseName)
+		ci.c = &Case{ID: len(cases), Old: old, New: nw, Steps: steps, Route: route, OldHas: pathNamesOf(old)}
+		cases = append(cases, ci)
+	}
+	inPlace := func(d Delta) bool {
+		return len(d.Defaults) > 0 || len(d.Paths) > 0 || d.Name == "authInternalUsers" || d.Name == "record" || d.Name == "recordDeleteAfter"
+	}
+
+	// --- singles: base -> base+d and base+d -> base, both routes
+	for _, d := range ds {
+		nw := apply(b0, d)
+		add("all-enabled", "single", "api", b0, nw, []Delta{d}, []Delta{d}, false)
+		add("all-enabled", "single", "file", b0, nw, []Delta{d}, []Delta{d}, false)
+		add("all-enabled", "reverse", "file", nw, b0, nil, []Delta{d}, false)
+		if rv, ok := reverse(b0, d, defG, defP); ok {
+			add("all-enabled", "reverse", "api", nw, b0, []Delta{rv}, []Delta{d}, false)
+		}
+	}
+	// --- the same single changes on a base where the optional (pointer-typed) parameters are set
+	for i, d := range ds {
+		if conflict(d, Delta{Global: map[string]any{"rtspUDPReadBufferSize": 0, "authJWTInHTTPQuery": 0}}) {
+			continue
+		}
+		if !r.Thorough() && !(inPlace(d) || i%9 == 0) {
+			continue
+		}
+		add("all-enabled+optional-pointer-parameters-set", "single", "api", b1, apply(b1, d), []Delta{d}, []Delta{d}, false)
+		if r.Thorough() {
+			add("all-enabled+optional-pointer-parameters-set", "single", "file", b1, apply(b1, d), []Delta{d}, []Delta{d}, false)
+		}
+	}
+	// --- pairs
+	for i, a := range ds {
+		for j, b := range ds {
+			if j <= i || conflict(a, b) {
+				continue
+			}
+			if !r.Thorough() && !(inPlace(a) || inPlace(b)) {
+				// quick tier: the pairs in which one change is reloaded in place (guards "if !closeX && changed")
+				continue
+			}
+			if r.Thorough() && (a.Dep || b.Dep) && !(inPlace(a) || inPlace(b)) {
+				continue
+			}
+			nw := apply(b0, a, b)
+			route := "api"
+			steps := []Delta{a, b}
+			if len(a.Global) > 0 && len(b.Global) > 0 {
+				// one PATCH of the global configuration with both parameters
+				m := map[string]any{}
+				for k, v := range a.Global {
+					m[k] = v
+				}
+				for k, v := range b.Global {
+					m[k] = v
+				}
+				steps = []Delta{{Name: a.Name + "+" + b.Name, Global: m}}
+			} else {
+				route = "file"
+			}
+			add("all-enabled", "pair", route, b0, nw, steps, []Delta{a, b}, false)
+		}
+	}
+	if r.Thorough() {
+		// --- chains A -> B -> A through the API
+		for _, d := range ds {
+			if rv, ok := reverse(b0, d, defG, defP); ok {
+				add("all-enabled", "chain", "api", b0, b0, []Delta{d, rv}, []Delta{d}, true)
+			}
+		}
+		// --- triples inside each component group
+		for i, a := range ds {
+			for j, b := range ds {
+				for k, c := range ds {
+					if !(i < j && j < k) || a.Group != b.Group || b.Group != c.Group || a.Dep || b.Dep || c.Dep ||
+						conflict(a, b) || conflict(a, c) || conflict(b, c) {
+						continue
+					}
+					add("all-enabled", "triple", "file", b0, apply(b0, a, b, c), nil, []Delta{a, b, c}, false)
+				}
+			}
+		}
+	}
+	if *flagOnly != "" {
+		var f []*caseInfo
+		for _, ci := range cases {
+			if strings.Contains(ci.label, *flagOnly) {
+				ci.c.ID = len(f)
+				f = append(f, ci)
+			}
+		}
+		cases = f
+	}
+	_ = bases
+
+	tmp, err := os.MkdirTemp("", "verif-c13-")
+	if err != nil {
+		vcommon.Harness("mkdtemp: %v", err)
+	}
+	defer os.RemoveAll(tmp)
+	pool := c12lib.NewPool(*flagProcs, tmp, "-tier", r.Tier)
+	defer pool.Close()
+	fail := func(format string, a ...any) {
+		pool.Close()
+		os.RemoveAll(tmp)
+		vcommon.Harness(format, a...)
+	}
+
+	r.Rule = fmt.Sprintf("pairs (old,new) of valid configurations built from a base with every component enabled and a table of %d "+
+		"alternative values covering all %d global parameters of conf.Conf (reflection-checked) plus path-default and path edits: "+
+		"all single changes in both directions through both reload routes; pairs (quick: those with an in-place reloadable change; "+
+		"thorough: all), thorough also A->B->A chains and triples inside a component group; "+
+		"distinct = (set of recreated components, set of components whose observation changed) classes", len(ds), len(confParamNames()))
+
+	// run, in chunks so that the deadline ends the enumeration cleanly
+	type outcome struct {
+		ci  *caseInfo
+		res *CaseResult
+	}
+	var done []outcome
+	cores := 0
+	envRetries := 0
+	exhaustive := true
+	chunk := pool.N * 8
+	runCases := func(list []*caseInfo) []*CaseResult {
+		jobs := make([]any, len(list))
+		for i, ci := range list {
+			jobs[i] = ci.c
+		}
+		out := make([]*CaseResult, len(list))
+		for i, pr := range pool.Run(jobs) {
+			if pr.Crash != "" {
+				out[i] = &CaseResult{Failure: "the process died: " + vcommon.Short(pr.Crash, 800)}
+				continue
+			}
+			var cr CaseResult
+			if err := json.Unmarshal(pr.Raw, &cr); err != nil {
+				fail("bad worker answer: %v", err)
+			}
+			if cr.HarnessError != "" {
+				fail("case %s: %s", list[i].label, cr.HarnessError)
+			}
+			cores += cr.Cores
+			out[i] = &cr
+		}
+		// a Core start refused by the machine (limits shared with other processes) is not an observation
+		for round := 0; round < 4; round++ {
+			var idx []int
+			var again []any
+			for i, cr := range out {
+				if cr.Env != "" {
+					idx = append(idx, i)
+					again = append(again, list[i].c)
+				}
+			}
+			if len(idx) == 0 {
+				break
+			}
+			envRetries += len(idx)
+			time.Sleep(time.Duration(200*(round+1)) * time.Millisecond)
+			for k, pr := range pool.Run(again) {
+				var cr CaseResult
+				if pr.Crash != "" {
+					cr = CaseResult{Failure: "the process died: " + vcommon.Short(pr.Crash, 800)}
+				} else if err := json.Unmarshal(pr.Raw, &cr); err != nil {
+					fail("bad worker answer: %v", err)
+				}
+				cores += cr.Cores
+				out[idx[k]] = &cr
+			}
+		}
+		for i, cr := range out {
+			if cr.Env != "" {
+				fail("case %s: %s (4 attempts)", list[i].label, cr.Env)
+			}
+		}
+		return out
+	}
+	// determinism discipline: the first case is run twice and must give the same observation
+	if len(cases) > 0 {
+		two := runCases([]*caseInfo{cases[0], cases[0]})
+		a, _ := json.Marshal(two[0].Comps)
+		b, _ := json.Marshal(two[1].Comps)
+		if string(a) != string(b) {
+			fail("nondeterministic: two executions of %s differ:\n%s\n%s", cases[0].label, a, b)
+		}
+	}
+	for lo := 0; lo < len(cases); lo += chunk {
+		if time.Now().After(deadline) {
+			exhaustive = false
+			r.Note("deadline reached: %d of %d cases done (all singles come first)", lo, len(cases))
+			break
+		}
+		hi := min(lo+chunk, len(cases))
+		for i, cr := range runCases(cases[lo:hi]) {
+			done = append(done, outcome{cases[lo+i], cr})
+		}
+	}
+
+	// ---- oracle ---------------------------------------------------------------------------------------
+	type finding struct {
+		key, what string
+		ci        *caseInfo
+	}
+	var findings []finding
+	singleNotApplied := map[string]map[string]bool{} // delta name -> set of "comp.field" not applied
+	skipped, failed := 0, 0
+	skipReasons := map[string]string{}
+	states := map[string]bool{}
+	needless := map[string]map[string][]*caseInfo{} // "comp|base" -> delta label -> cases
+	judge := func(o outcome, record bool) []finding {
+		var fs []finding
+		ci, cr := o.ci, o.res
+		if cr.Skip != "" {
+			return nil
+		}
+		if cr.Failure != "" {
+			fs = append(fs, finding{"reload-failed:" + strings.Join(ci.names, ","), fmt.Sprintf("%s: %s", ci.label, cr.Failure), ci})
+			return fs
+		}
+		comps := map[string]*CompObs{}
+		for i := range cr.Comps {
+			comps[cr.Comps[i].Name] = &cr.Comps[i]
+		}
+		recreated := func(n string) bool {
+			c := comps[n]
+			return c != nil && c.P0 && (!c.P1 || !c.Same)
+		}
+		loggerRecreated := recreated("logger")
+		var recr, chg []string
+		for _, c := range cr.Comps {
+			if recreated(c.Name) {
+				recr = append(recr, c.Name)
+			}
+			if c.P0 != c.PF || c.Sig0 != c.SigF {
+				chg = append(chg, c.Name)
+			}
+			// (1) new values
+			if c.P1 != c.PF {
+				fs = append(fs, finding{fmt.Sprintf("presence:%s:%s", c.Name, strings.Join(ci.names, ",")),
+					fmt.Sprintf("%s: component %s alive after the reload = %v, in a fresh Core with the new configuration = %v", ci.label, c.Name, c.P1, c.PF), ci})
+			}
+			var fields []string
+			for f := range c.Diff {
+				fields = append(fields, f)
+			}
+			sort.Strings(fields)
+			for _, f := range fields {
+				d := c.Diff[f]
+				param := attribute(ci, d[1])
+				cf := c.Name + "." + f
+				if ci.kind != "single" && ci.kind != "reverse" {
+					// already explained by one of the single changes?
+					expl := ""
+					for _, n := range ci.names {
+						if singleNotApplied[n][cf] {
+							expl = n
+						}
+					}
+					if expl != "" {
+						param = expl
+					}
+				} else if record {
+					for _, n := range ci.names {
+						if singleNotApplied[n] == nil {
+							singleNotApplied[n] = map[string]bool{}
+						}
+						singleNotApplied[n][cf] = true
+					}
+				}
+				fs = append(fs, finding{fmt.Sprintf("not-applied:%s->%s", param, strings.ReplaceAll(cf, " ", ":")),
+					fmt.Sprintf("%s: after the reload %s is %s, a fresh Core with the new configuration has %s (component instance kept: %v)",
+						ci.label, cf, d[0], d[1], c.Same), ci})
+			}
+			// (2) stale references
+			for _, s := range c.Stale {
+				fs = append(fs, finding{fmt.Sprintf("stale-reference:%s.%s", c.Name, strings.SplitN(s, "=", 2)[0]),
+					fmt.Sprintf("%s: %s.%s refers to a closed component instance", ci.label, c.Name, s), ci})
+			}
+			// (3) identity
+			if !ci.noIdentity && c.P0 && c.P1 && !c.Same && c.PF {
+				legit := c.Sig0 != c.SigF || (loggerRecreated && c.Name != "logger")
+				for _, t := range c.Refs0 {
+					if recreated(t) {
+						legit = true
+					}
+				}
+				if !legit {
+					k := c.Name + "|" + ci.base
+					if record {
+						if needless[k] == nil {
+							needless[k] = map[string][]*caseInfo{}
+						}
+						dn := strings.Join(ci.names, ",")
+						needless[k][dn] = append(needless[k][dn], ci)
+					} else {
+						fs = append(fs, finding{"needless-recreate:" + c.Name, ci.label, ci})
+					}
+				}
+			}
+		}
+		if record {
+			states[strings.Join(recr, ",")+"|"+strings.Join(chg, ",")] = true
+			r.Distinct("recreated{" + strings.Join(recr, ",") + "} changed{" + strings.Join(chg, ",") + "}")
+		}
+		return fs
+	}
+	for _, o := range done {
+		r.Eval(1)
+		if o.res.Skip != "" {
+			skipped++
+			skipReasons[o.ci.label] = o.res.Skip
+			continue
+		}
+		if o.res.Failure != "" {
+			failed++
+		}
+		findings = append(findings, judge(o, true)...)
+	}
+	// needless recreations: one key per (component, base, change); when a component is recreated whatever the change is
+	// (5 or more different changes) the changes are collapsed into "*"
+	var nk []string
+	for k := range needless {
+		nk = append(nk, k)
+	}
+	sort.Strings(nk)
+	for _, k := range nk {
+		parts := strings.SplitN(k, "|", 2)
+		var dns []string
+		for dn := range needless[k] {
+			dns = append(dns, dn)
+		}
+		sort.Strings(dns)
+		if len(dns) >= 5 {
+			ci := needless[k][dns[0]][0]
+			findings = append(findings, finding{fmt.Sprintf("needless-recreate:%s:base=%s:*", parts[0], parts[1]),
+				fmt.Sprintf("component %s is closed and recreated by %d different changes that touch none of its parameters nor a component it refers to "+
+					"(e.g. %s; all: %s): its clients are disconnected for nothing", parts[0], len(dns), ci.label, vcommon.Short(strings.Join(dns, " | "), 400)), ci})
+			continue
+		}
+		for _, dn := range dns {
+			ci := needless[k][dn][0]
+			findings = append(findings, finding{fmt.Sprintf("needless-recreate:%s:base=%s:%s", parts[0], parts[1], strings.ReplaceAll(dn, " ", "")),
+				fmt.Sprintf("%s: component %s is closed and recreated although its observation in a fresh Core is the same under the old and the new "+
+					"configuration and no component it refers to was recreated: its clients are disconnected for nothing", ci.label, parts[0]), ci})
+		}
+	}
+
+	// every finding is re-executed twice: it must reproduce (otherwise it is a harness problem, not a verdict)
+	rechecked := map[int]bool{}
+	var again []*caseInfo
+	for _, f := range findings {
+		if !rechecked[f.ci.c.ID] && len(again) < 200 {
+			rechecked[f.ci.c.ID] = true
+			again = append(again, f.ci, f.ci)
+		}
+	}
+	if len(again) > 0 {
+		first := map[int]string{}
+		for _, o := range done {
+			if rechecked[o.ci.c.ID] {
+				b, _ := json.Marshal(stripPtr(o.res))
+				first[o.ci.c.ID] = string(b)
+			}
+		}
+		for i, cr := range runCases(again) {
+			b, _ := json.Marshal(stripPtr(cr))
+			if string(b) != first[again[i].c.ID] {
+				fail("nondeterministic: re-execution of %s gave a different observation: %s", again[i].label, jsonDiff(first[again[i].c.ID], string(b)))
+			}
+		}
+	}
+	for _, f := range findings {
+		r.Violation(f.key, f.what, map[string]any{
+			"base": f.ci.base, "change": f.ci.names, "old": f.ci.c.Old, "new": f.ci.c.New, "route": f.ci.c.Route, "steps": f.ci.c.Steps,
+			"how": "start mediamtx with `old` (@A<k>@/@I<k>@ = free loopback ports), apply `steps` through the Control API (route api) or write `new` to the configuration file (route file), compare the components with a fresh start on `new`"})
+	}
+	pool.Close()
+
+	kinds := map[string]int{}
+	for _, o := range done {
+		kinds[o.ci.kind+"/"+o.ci.c.Route]++
+	}
+	var ks []string
+	for k, v := range kinds {
+		ks = append(ks, fmt.Sprintf("%s=%d", k, v))
+	}
+	sort.Strings(ks)
+	for i, o := range done {
+		if i%(len(done)/8+1) == 0 {
+			r.Sample(o.ci.label)
+		}
+	}
+	r.Set("states", len(states))
+	r.Set("transitions", len(done)-skipped)
+	r.Set("traces_validated_against_impl", cores)
+	r.Set("cases_by_kind", ks)
+	r.Set("cases_skipped_not_startable", skipped)
+	r.Set("reload_failures", failed)
+	r.Set("core_starts_refused_by_the_machine_and_retried", envRetries)
+	{
+		var sk []string
+		for l, why := range skipReasons {
+			sk = append(sk, l+": "+vcommon.Short(why, 300))
+		}
+		sort.Strings(sk)
+		if len(sk) > 40 {
+			sk = sk[:40]
+		}
+		r.Set("skipped_cases", sk)
+	}
+	r.Set("parameters_covered", len(confParamNames()))
+	r.Set("alternative_values", len(ds))
+	r.Set("worker_crashes", pool.Crashed.Load())
+	r.Set("bound_completed", fmt.Sprintf("%d of %d enumerated cases", len(done), len(cases)))
+	r.Exhaustive = exhaustive
+	r.Assumptions = []string{
+		"a component = a pointer field of core.Core; its parameters = its plain-data fields (strings, numbers, booleans, slices, maps, internal/conf structs) and the components its pointer/interface fields refer to, read by reflection after a barrier through Core.run and the path manager loop",
+		"recreating any component together with the logger is accepted (every component logs through Core's logger)",
+		"one or two alternative values per parameter; listeners move to 127.0.0.2 on the same port; syslog, JWT/HTTP auth servers and real clients are outside the alphabet",
+		"client connections are not probed: 'keeps running' is decided by instance identity",
+	}
+	if len(states) < 4 && *flagOnly == "" {
+		fail("vacuous: only %d distinct reload classes", len(states))
+	}
+	r.Finish()
+}
+
+func stepNames(steps []Delta) string {
+	var n []string
+	for _, s := range steps {
+		n = append(n, s.Name)
+	}
+	if len(n) == 0 {
+		return "file content"
+	}
+	return strings.Join(n, " ; ")
+}
+
+// attribute names the changed parameter whose new value is the one a stale field should have.
+func attribute(ci *caseInfo, want string) string {
+	if len(ci.params) == 1 {
+		return ci.params[0]
+	}
+	var cand []string
+	for _, p := range ci.params {
+		v, ok := ci.vals[p]
 		if !ok {
-			fmt.Println("START FAILED")
-			return
+			continue
 		}
-		snap, _ := core.VerifC13Snapshot(p)
-		t2 := time.Now()
-		p.Close()
-		t3 := time.Now()
-		fmt.Fprintln(os.Stderr, "start", t1.Sub(t0), "snap", t2.Sub(t1), "close", t3.Sub(t2))
-		if i == 0 {
-			buf, _ := json.MarshalIndent(snap, "", " ")
-			os.Stderr.Write(buf)
+		tok := fmt.Sprint(v)
+		tok = strings.NewReplacer("@I", "@", "@A", "@").Replace(tok)
+		if s, ok := v.(string); ok {
+			tok = strings.NewReplacer("@I", "@", "@A", "@").Replace(s)
+		}
+		if tok != "" && strings.Contains(want, tok) {
+			cand = append(cand, p)
 		}
 	}
+	if len(cand) == 1 {
+		return cand[0]
+	}
+	return strings.Join(ci.params, "+")
+}
+
+func stripPtr(cr *CaseResult) any {
+	c := *cr
+	c.Cores = 0
+	c.ID = 0
+	return c
+}
+
+// jsonDiff shows where two case results differ (diagnostics of a harness error).
+func jsonDiff(a, b string) string {
+	var ra, rb CaseResult
+	_ = json.Unmarshal([]byte(a), &ra)
+	_ = json.Unmarshal([]byte(b), &rb)
+	if ra.Failure != rb.Failure || ra.Skip != rb.Skip {
+		return fmt.Sprintf("failure %q/%q skip %q/%q", ra.Failure, rb.Failure, ra.Skip, rb.Skip)
+	}
+	var out []string
+	for i := range ra.Comps {
+		if i < len(rb.Comps) {
+			x, _ := json.Marshal(ra.Comps[i])
+			y, _ := json.Marshal(rb.Comps[i])
+			if string(x) != string(y) {
+				out = append(out, string(x)+" VS "+string(y))
+			}
+		}
+	}
+	return strings.Join(out, "\n")
 }
